@@ -164,7 +164,7 @@ def document_level(ctx, depth):
     pdocs = []
     for ptype in ('**ekern', '**bkern', '**aekern', '**bdyn', '**aetext', '**etext', '**bekern', '**akern'):
         d = gen.DocGen(ctx.rng, profile='free', max_measures=2, max_spines=2, unknown=True).make()
-        j = next(i for i, h in enumerate(d['headers']) if h in ('**recip', '**silbe', '**cdata'))
+        j = next(i for i, h in enumerate(d['headers']) if h not in gen.HEADERS)
         d['headers'][j] = ptype
         for row in d['rows']:
             if row['kind'] == 'cells' and row['rk'] == 'header':
